@@ -8,7 +8,7 @@ OWNER = 'C13'
 
 def run(res):
   mmdesign.run_design_level(res, OWNER)
-  insts, verdicts, stats = mm.run_search_clauses(res, OWNER)
+  insts, verdicts, stats = mm.run_search_clauses(res, OWNER, count=None if res.tier == 'thorough' else 520)
   mm.vacuity_guard(res, OWNER, stats)
   # step-level binding of MMImplG (hook events of greedy_search): drift is a note, never a verdict
   mm.run_step_validation(res, insts, OWNER, module='MMStepTraceG')
